@@ -64,6 +64,15 @@ func c12Graphs() map[string]*tGraph {
 	for i := 1; i < 9; i++ {
 		star = append(star, [2]int{0, i}, [2]int{i, 0})
 	}
+	// the same tree without any property on its vertices (a mark on such a vertex has an empty data map)
+	bare := &tGraph{Name: "baretree"}
+	for i := 0; i < 31; i++ {
+		bare.V = append(bare.V, mv(fmt.Sprintf("n%d", i), "P", nil))
+	}
+	for i := 0; i < 15; i++ {
+		bare.E = append(bare.E, me(fmt.Sprintf("e%d", 2*i), "r", fmt.Sprintf("n%d", i), fmt.Sprintf("n%d", 2*i+1), nil), me(fmt.Sprintf("e%d", 2*i+1), "r", fmt.Sprintf("n%d", i), fmt.Sprintf("n%d", 2*i+2), nil))
+	}
+	out["baretree"] = bare
 	mk("chain", 8, chain)
 	mk("cycle", 5, cycle)
 	mk("tree", 31, tree)
@@ -146,6 +155,14 @@ func c12Programs() []c12Prog {
 			[]*gripql.GraphStatement{gsInc("$s.c", 1), mkStmt(q.Has(cond("LT", "$s.c", float64(K)))), gsJump("m", nil, true)}, q.Count().Statements)
 		out = append(out, c12Prog{fmt.Sprintf("forward-jump(K=%d)", K), prog})
 	}
+	// the counter is created by the first increment (no set) on a mark
+	for K := 1; K <= 4; K++ {
+		for _, emit := range []bool{true, false} {
+			prog := flat(q.V("n0").Statements, []*gripql.GraphStatement{mkStmt(q.As("s")), gsMark("m")}, q.Out().Statements,
+				[]*gripql.GraphStatement{gsInc("$s.c", 1), mkStmt(q.Has(cond("LT", "$s.c", float64(K)))), gsJump("m", nil, emit)})
+			out = append(out, c12Prog{fmt.Sprintf("V(n0).as(s).mark(m).out().increment($s.c).has(lt($s.c,%d)).jump(m,nil,%v) [no set]", K, emit), prog})
+		}
+	}
 	// no jump at all, and a mark nobody jumps to
 	out = append(out, c12Prog{"mark-without-jump", flat(q.V().Statements, []*gripql.GraphStatement{gsMark("m")}, q.Out().Count().Statements)})
 	return out
@@ -165,7 +182,7 @@ func c12Profiles(seed int64) []mon.Profile {
 func c12Gen(g *fw.GenCtx) []fw.Case {
 	var cases []fw.Case
 	progs := c12Programs()
-	graphs := []string{"chain", "cycle", "tree", "star", "K4", "K5"}
+	graphs := []string{"chain", "cycle", "tree", "star", "K4", "K5", "baretree"}
 	profiles := c12Profiles(g.Seed)
 	procs := []int{1, 2, 4, 16}
 	rng := rand.New(rand.NewSource(g.Seed*29 + 17))
@@ -370,7 +387,7 @@ func init() {
 		Race:              true,
 		ScheduleDependent: true,
 		WorkerProcs:       -1,
-		Rule:              "loop programs V(starts).set(c,0).as(s).mark(m).BODY.increment($s.c).has(lt($s.c,K)).jump(m,COND,EMIT).TAIL with 8 order-preserving bodies x 3 conditions x emit on/off x K in 0..4, two jumps to one mark, a jump placed before its mark, on chain/cycle/binary tree/star/K4/K5 (K6 in thorough; up to several thousand travelers in flight, beyond the 50/100/1000/5000 capacities); each (program, graph) runs under GOMAXPROCS in {1,2,4,16} x 15 delay profiles at the verifhook points (none, yield everywhere, two random profiles, a long sleep at exactly one site for each of 9 sites) in a -race build. Oracle: result multiset = worklist interpreter of the iterative definition; closure (livelock/deadlock certificate otherwise); conservation of travelers in the recorded event trace (jump.to_queue = queue.in = queue.out = mark.fwd_jump at the end). Non-trivial = non-empty expected result and at least one traveler went round the cycle; distinct = distinct (program, graph, interleaving signature), the signature being a hash of the recorded event order.",
+		Rule:              "loop programs V(starts).set(c,0).as(s).mark(m).BODY.increment($s.c).has(lt($s.c,K)).jump(m,COND,EMIT).TAIL with 8 order-preserving bodies x 3 conditions x emit on/off x K in 0..4, two jumps to one mark, a jump placed before its mark, a counter created by the first increment, on chain/cycle/binary tree/the same tree without vertex properties/star/K4/K5 (K6 in thorough; up to several thousand travelers in flight, beyond the 50/100/1000/5000 capacities); each (program, graph) runs under GOMAXPROCS in {1,2,4,16} x 15 delay profiles at the verifhook points (none, yield everywhere, two random profiles, a long sleep at exactly one site for each of 9 sites) in a -race build. Oracle: result multiset = worklist interpreter of the iterative definition; closure (livelock/deadlock certificate otherwise); conservation of travelers in the recorded event trace (jump.to_queue = queue.in = queue.out = mark.fwd_jump at the end). Non-trivial = non-empty expected result and at least one traveler went round the cycle; distinct = distinct (program, graph, interleaving signature), the signature being a hash of the recorded event order.",
 		Assumptions: []string{
 			"loop bodies are order-preserving steps (both()/bothE() let the termination signal overtake travelers and are excluded by the property text)",
 			"counters live in a mark ($s.c) as in the documentation example; counters on the current element are aliased between travelers and unspecified",
@@ -378,7 +395,7 @@ func init() {
 			"a signal-ordering anomaly without a lost traveler is counted (protocol_anomaly) but is not a violation",
 		},
 		BatchSize:   40,
-		CaseTimeout: 90 * time.Second,
+		CaseTimeout: 240 * time.Second,
 		Gen:         c12Gen,
 		Exec:        c12Exec,
 		Sample: func(c fw.Case, r fw.Result) interface{} {
